@@ -86,6 +86,11 @@ class Gen:
         note = r.choice(NOTE_VALUES)
         vel = self.pick(0, 129)
         module, ctl, val = w(max_module), w(), w()
+        if r.random() < 0.35:
+            # column-sparse cells: only some columns carry a value (a module number alone, an effect alone, ...)
+            keep = r.sample(range(5), r.randint(1, 2))
+            note, vel, module, ctl, val = [v if i in keep else 0 for i, v in enumerate((note, vel, module or 1, ctl or 1, val or 1))]
+            module = min(module, max_module)
         return bytes([note, vel, module & 0xFF, module >> 8, ctl & 0xFF, ctl >> 8, val & 0xFF, val >> 8])
 
     def pattern(self, max_module=0xFFFF):
@@ -221,7 +226,7 @@ class Gen:
         if T in ("AnalogGenerator", "Generator"):
             default = [0, -100, -90, 0, 90, -119, -20, 45, 2, -20, 111, -23, 2, -98, 60, 32,
                        100, 50, 0, -50, 65, 98, 50, 32, -90, -120, 100, 90, 59, 21, 0, 54]
-            return {"drawn_waveform": self.arr(32, -128, 127, default)}
+            return {"drawn_waveform": self.arr(32, -128, 127, default), "drawn_waveform_format": 1, "drawn_waveform_freq": 44100}
         if T == "Fmx":
             if r.random() < 0.3:
                 return {"custom_waveform": [0.0] * 256}
